@@ -35,6 +35,10 @@ func properties() []Property {
 			Harnesses: []HarnessSpec{
 				{Name: "H_C09_actions", Profile: "bit", Quick: b("steps", 2), Thorough: b("steps", 4), Covers: []string{"message-accepted", "message-refused", "probe-with-paused-action", "probe-unaffected"}},
 			}},
+		{ID: "C10", Assumptions: []string{aSummaries, aModels, "the servers are the ones keeper.RegisterMsgServers registers on a recording configurator", "signer: any string of at most signerlen bytes other than the authority's bech32 string in lower or upper case (both spellings denote the authority account)", "state unchanged = identical content of every orbiter collection (natively: identical key/value content of the orbiter store), no event, no bridge request, no bank movement"},
+			Harnesses: []HarnessSpec{
+				{Name: "H_C10_unauthorized", Profile: "bit", RPCCoverage: true, Quick: b("signerlen", 50), Thorough: b("signerlen", 64), Covers: []string{"authority-succeeds-with-valid-content", "rpc:forwarder.PauseProtocol", "rpc:forwarder.UnpauseProtocol", "rpc:forwarder.PauseCrossChains", "rpc:forwarder.UnpauseCrossChains", "rpc:forwarder.ReplaceDepositForBurn", "rpc:executor.PauseAction", "rpc:executor.UnpauseAction", "rpc:adapter.UpdateParams"}},
+			}},
 		{ID: "C18", Assumptions: []string{aSummaries, aModels, aE1, "the passthrough payload is an all-zero byte slice whose LENGTH is symbolic in [0, maxlen] (the hook reads only len)"},
 			Harnesses: []HarnessSpec{
 				{Name: "H_C18_limit", Profile: "bit", Quick: b("updates", 2, "maxlen", 70000), Thorough: b("updates", 3, "maxlen", 5000000), Covers: []string{"over-limit", "within-limit", "params-unreadable"}},
